@@ -977,6 +977,7 @@ def gen_modules(cfg, n=None, workers=4, seed=1, timeout=1500, env=None):
     if r.violation:
         raise MachineryError("MIRModule %s: invariant %s violated" % (cfg, r.violation))
     cases = [{"M": norm_mods(o["mods"]), "NF": norm_mods(o["textnf"])} for o in r.outs]
+    r.outs, r.out = [], ""          # the raw output of a large enumeration is not needed any more
     return cases, r
 
 
@@ -1043,7 +1044,7 @@ PROBE_HIST = "o1>s1>o2>s2"
 def pick_hist(hists, org, num, want=None):
     """a history by shape"""
     for h in hists:
-        if h["ctxs"][0]["org"] == org and h["ctxs"][0]["num"] == num and (want is None or hist_name(h).split(":")[0] == want):
+        if h["ctxs"][0]["org"] == org and h["ctxs"][0]["num"] == num and (want is None or (hist_name(h).split(":")[0] + ">").startswith(want + ">")):
             return h
     raise MachineryError("no history %s %s %s" % (org, num, want))
 
